@@ -370,10 +370,23 @@ def judge_pair(ctx, sut, left, right, spec_l, spec_r, kind, aimed, values_n):
                         f"a == b, but a -> {out_l} and b -> {out_r}", finding=finding)
             return
     try:
-        json_l = normalise_json(sut.serialize_json(left))
+        handed_out = sut.serialize_json(left)
+        json_l = normalise_json(copy.deepcopy(handed_out))
         json_r = normalise_json(sut.serialize_json(right))
+        # the returned document is the caller's: editing it does not make `left` another element
+        sut.scribble_json(handed_out)
+        still_equal = left == right
+        json_again = normalise_json(sut.serialize_json(left))
     except Exception as exc:  # pylint: disable=broad-except
         ctx.count("serialize_failed." + type(exc).__name__)
+        return
+    ctx.count("equal_pairs.returned_document_scribbled")
+    from vlib import refmodel as _refmodel  # pylint: disable=import-outside-toplevel
+
+    if not still_equal or not _refmodel.json_eq(json_again, json_l):
+        ctx.witness("equal_until_returned_document_edited", case,
+                    "a == b, but after the caller edited the document serialize_json(a) had returned, "
+                    f"a == b is {still_equal} and a serializes as {json.dumps(json_again, default=repr)[:250]}")
         return
     ctx.count("equal_pairs.json_compared")
     from vlib import refmodel  # pylint: disable=import-outside-toplevel
